@@ -8,7 +8,62 @@ Directed recipes come from the case analyses of the proofs in lean/MpirProofs/Le
    probability ~2^-64 on uniform data and is CONSTRUCTED: d1 = 2^63 + small, d0 = B - small (or small),
    n = q*d + d - 1 - small.  The python mirror below is run on every generated input to COUNT the
    branches taken (printed by `python3 tools/props/c02_word.py`, stored in the evidence by extra()).
- * invert_pi1: branch a (p < d0), a_mask (p >= d1 inside a), b (p < t1), c (p >= d1), c_dec.
+ * invert_pi1: branch a (p < d0), a_mask (p >= d1 inside a), b (p < t1), c (p >= d1), c_dec / c_nodec; c_nodec
+   (p == d1 and t0 < d0) needs floor(d0 v / B) + d0 = B^2 - (B+v) d1 + d1 exactly and is SOLVED for d0 (pi1_c_nodec).
+ * mpn_divrem_1: every path label of divrem_1.c (Hensel / euclidean_qr_1 asm / fraction limbs, normalised or not,
+   skip step taken or not); mpn_divrem_euclidean_r_1: mod_1_1 / mod_1_2 / mod_1_3 folding and the plain loop;
+   the 2-adic division: one-limb and two-limb steps with and without borrow, with and without the `h++` fix-up.
+
+Branch coverage of the model on the quick tier, seed 1 (python tools/props/c02_word.py quick; the same numbers go
+into evidence/C02.json as coverage.c02_word_model_branches on every run):
+    ops: 65733
+    3by2.adj1                    2785
+    3by2.adj2                    48
+    3by2.adj2_outer_only         1574
+    3by2.no_adj1                 1072
+    3by2.no_adj2                 2235
+    divexact_1.even              1789
+    divexact_1.odd               1781
+    divexact_1.size1             190
+    divrem_1.euclid_asm_norm     751
+    divrem_1.euclid_asm_unnorm   1977
+    divrem_1.frac_norm           987
+    divrem_1.frac_unnorm         3304
+    divrem_1.hensel              565
+    divrem_1/mod_1.norm_top_ge_d 889
+    divrem_1/mod_1.norm_top_lt_d 849
+    divrem_1/mod_1.unnorm_noskip 3972
+    divrem_1/mod_1.unnorm_skip   1874
+    hensel.pair_borrow           6365
+    hensel.pair_h_inc            1721
+    hensel.pair_h_noinc          31990
+    hensel.pair_noborrow         27346
+    hensel.qr_1_1                2064
+    hensel.qr_1_2                1728
+    hensel.step_borrow           3713
+    hensel.step_noborrow         13111
+    invert_pi1.a                 2476
+    invert_pi1.a_mask            567
+    invert_pi1.b                 1013
+    invert_pi1.c                 678
+    invert_pi1.c_dec             598
+    invert_pi1.c_nodec           80
+    invert_pi1.not_a             1524
+    invert_pi1.not_b             2987
+    mod_1.norm                   1738
+    mod_1.unnorm                 5846
+    preinv1.r_ge_d               1833
+    preinv1.r_lt_d               2820
+    preinv1.xh1                  1837
+    preinv1.xh2                  195
+    preinv2.fix_add_d            3338
+    preinv2.nmask0               2359
+    preinv2.nmask1               2294
+    preinv2.no_fix               1315
+    r_1.loop                     3255
+    r_1.mod_1_1                  549
+    r_1.mod_1_2                  810
+    r_1.mod_1_3                  2970
 """
 import os, sys, collections
 sys.path.insert(0, os.path.dirname(os.path.dirname(os.path.abspath(__file__))))
@@ -25,8 +80,10 @@ TRUSTED = ["W primitives umul_ppmm/add_ssaaaa/sub_ddmmss/udiv_qrnnd/count_leadin
            "assembly mpn_divrem_euclidean_qr_1 modelled by mpn/generic/divrem_euclidean_qr_1.c, mpn_divexact_by3c by mpn/generic/divexact_by3c.c, mpn_modexact_1c_odd by the dataflow of mpn/x86_64/modexact_1c_odd.as"]
 ASSUMPTIONS = ["64-bit limbs, no nails; udiv_qrnnd_preinv = udiv_qrnnd_preinv2, invert_limb = udiv_qrnnd macro, thresholds as resolved into lean/Mpir/Gen/DivParams.lean (regenerated and re-checked on every run)"]
 RULE = ("word macros: normalised d in {2^63, 2^63+1, B-1, B-2, 2^63+-small, runs, random} x nh in {0,1,d-1,d-2,random} x nl in {0,1,B-1,2^63,2^63-1,random}, "
-        "dividends q*d+r with r in {0,1,d-1}; 3by2/invert_pi1 inputs constructed so that every correction branch fires (counted by the python mirror); "
-        "one-limb kernels: divisor classes 1,2,3,2^k,2^k-1,odd,even,B-1,path thresholds x sizes 1..40 (+ a few up to 300) x data classes x dividends q*d+r; distinct = distinct op lines")
+        "dividends q*d+r with r in {0,1,d-1}; 3by2/invert_pi1 inputs constructed so that every correction branch fires (counted by the python mirror, "
+        "stored as coverage.c02_word_model_branches); one-limb kernels: divisor classes 1,2,3,2^k,2^k-1,odd,even,B-1,path thresholds (2^62+1, (B-1)/3+1, 2^63+1) "
+        "x sizes 1..40 (+ a few up to 300) x data classes x dividends q*d+r; predicate ops (modlimb_invert_ok, mpn_divexact_1_ok) evaluate the property on the "
+        "implementation's output; distinct = distinct op lines")
 
 HB = 1 << 63
 
@@ -86,6 +143,45 @@ def m_3by2(n2, n1, n0, d1, d0, dinv, br):
     else: br["3by2.no_adj2"] += 1
     return q, r1, r0
 
+def m_modlimb_invert(n):
+    inv = pow(n, -1, 256)
+    for _ in range(3): inv = (2 * inv - inv * inv * n) & M
+    return inv
+
+def m_hensel(x, d, s, cin, two, br):
+    """mirror of mpn_rsh_divrem_hensel_qr_1_1 (two=False) / _1_2 (two=True); returns (limbs, ret)"""
+    n = len(x); ml = m_modlimb_invert(d)
+    hB, one = _umul(d, ml); assert one == 1
+    mh = (ml * ((-hB) & M)) & M
+    def step(xj, h, c):
+        t = (h + c) & M
+        c2 = 1 if t > xj else 0
+        br["hensel.step_borrow" if c2 else "hensel.step_noborrow"] += 1
+        h1 = (xj - t) & M; q = (h1 * ml) & M
+        return q, _umul(q, d)[0], c2
+    out = []; q, h, c = step(x[0], cin, 0); qo = q >> s
+    hi = lambda qq: ((qq << (63 - s)) & M) << 1 & M
+    j = 1
+    while two and j + 1 <= n - 1:
+        xl, xh = x[j], x[j + 1]; t = (h + c) & M
+        c = 1 if (xh == 0 and t > xl) else 0
+        br["hensel.pair_borrow" if c else "hensel.pair_noborrow"] += 1
+        xh, xl = _sub2(xh, xl, 0, t)
+        qh, ql = _umul(xl, ml); qh = (qh + xh * ml + xl * mh) & M
+        out.append(qo | hi(ql)); qo = ql >> s
+        out.append(qo | hi(qh)); qo = qh >> s
+        h, h1 = _umul(qh, d)
+        if h1 > xh: h = (h + 1) & M; br["hensel.pair_h_inc"] += 1
+        else: br["hensel.pair_h_noinc"] += 1
+        j += 2
+    while j <= n - 1:
+        q, h, c = step(x[j], h, c)
+        out.append(qo | hi(q)); qo = q >> s; j += 1
+    out.append(qo)
+    if s == 0:     # unshifted: the defining identity of the 2-adic quotient
+        assert sum(v << (64 * i) for i, v in enumerate(out)) * d + cin == sum(v << (64 * i) for i, v in enumerate(x)) + (((h + c) & M) << (64 * n))
+    return out, (h + c) & M
+
 # thresholds of mpn/x86_64/gmp-mparam.h, only used to label the path an op takes
 T_HENSEL, T_HQR, T_M13, T_M12, T_M11 = 30, 19, 13, 7, 6
 def path_divrem_1(un, d, qxn):
@@ -122,7 +218,9 @@ def limb_divisors(rng):
     for k in rng.sample(ks, 8): out.append(("pow2", 1 << k))
     for k in rng.sample(ks, 8) + [64]: out.append(("pow2m1", (1 << k) - 1))
     for _ in range(5): out.append(("odd", rng.getrandbits(rng.randrange(2, 65)) | 1))
-    for _ in range(5): out.append(("even", (rng.getrandbits(rng.randrange(2, 64)) | 1) << rng.randrange(1, 12)))
+    for _ in range(5):
+        sh = rng.randrange(1, 12)
+        out.append(("even", (rng.getrandbits(rng.randrange(2, 65 - sh)) | 1) << sh))
     for _ in range(3): out.append(("oddnorm", HB | rng.getrandbits(63) | 1))
     for _ in range(2): out.append(("evennorm", (HB | rng.getrandbits(63)) & ~1))
     return out
@@ -179,18 +277,39 @@ def gen_words(rng, tier):
                 yield "count_leading_zeros %x" % x
                 yield "count_trailing_zeros %x" % x
     # modlimb_invert: every table index, every high pattern
-    for n in range(1, 256, 2): yield "modlimb_invert %x" % n
+    for n in range(1, 256, 2):
+        yield "modlimb_invert %x" % n
+        yield "modlimb_invert_ok %x" % (n | (rng.getrandbits(56) << 8))
     for _ in range(200 * reps):
         yield "modlimb_invert %x" % (rng.choice(word_vals(rng)) | 1)
     for k in range(1, 65):
         yield "modlimb_invert %x" % ((1 << k) - 1)
         if k < 64: yield "modlimb_invert %x" % ((1 << k) + 1)
 
+def pi1_c_nodec(rng):
+    """(d1, d0) on which mpir_invert_pi1 takes branch c WITHOUT the inner decrement (p == d1 and t0 < d0 after the
+    carry).  From the proof (pi1PhaseB_spec): with v the value after phase A and G = B^2 - (B+v) d1 - d0 the branch needs
+    floor(d0 v / B) - G = d1, i.e. floor(d0 v / B) + d0 = B^2 - (B+v) d1 + d1 =: K; solve d0 ~ K B / (B + v) and check."""
+    for _ in range(200):
+        d1 = rng.choice([HB, HB + 1, HB + rng.getrandbits(rng.randrange(1, 40)), M - rng.getrandbits(rng.randrange(1, 40)), HB | rng.getrandbits(63)])
+        v0 = m_invert_limb(d1)
+        for j in range(3):
+            v = v0 - j
+            if v < 0: continue
+            K = B * B - (B + v) * d1 + d1
+            c = K * B // (B + v)
+            for d0 in range(c - 2, c + 3):
+                if 0 <= d0 < B:
+                    b = collections.Counter(); m_invert_pi1(d1, d0, b)
+                    if b["invert_pi1.c_nodec"]: return d1, d0
+    return HB, 0xc000000000000001
+
 def gen_3by2(rng, tier):
     n = 4000 if tier == "quick" else 40000
     for it in range(n):
         d1 = rng.choice([HB, HB + 1, M, M - 1, HB + rng.getrandbits(8), M - rng.getrandbits(8), HB | rng.getrandbits(63), HB | rrandomb(rng, 63)])
         d0 = rng.choice([0, 1, 2, M, M - 1, rng.getrandbits(8), M - rng.getrandbits(8), rng.getrandbits(64), rrandomb(rng, 64), HB])
+        if it % 50 == 7: d1, d0 = pi1_c_nodec(rng)
         d = (d1 << 64) | d0
         dinv = m_invert_pi1(d1, d0, BR)
         assert dinv == (B ** 3 - 1) // d - B
@@ -222,6 +341,8 @@ def gen_limbs(rng, tier):
                     u = dividend(rng, n, d, kind)
                     qxn = rng.choice([0, 0, 0, 1, 2, 3, 7])
                     BR[path_divrem_1(n, d, qxn)] += 1
+                    if d >> 63: BR["divrem_1/mod_1.norm_top_ge_d" if u[-1] >= d else "divrem_1/mod_1.norm_top_lt_d"] += 1
+                    else: BR["divrem_1/mod_1.unnorm_skip" if u[-1] < d else "divrem_1/mod_1.unnorm_noskip"] += 1
                     yield "mpn_divrem_1%s %s %x %x" % (rng.choice(["", "", "_ip"]), vec(u), d, qxn)
                     yield "mpn_mod_1 %s %x" % (vec(u), d)
                     BR["mod_1.norm" if d >> 63 else "mod_1.unnorm"] += 1
@@ -237,12 +358,14 @@ def gen_limbs(rng, tier):
                     if kind == "r0" or rng.random() < 0.3:
                         BR["divexact_1.size1" if n == 1 else ("divexact_1.odd" if d & 1 else "divexact_1.even")] += 1
                         yield "mpn_divexact_1%s %s %x" % (rng.choice(["", "_ip"]), vec(u), d)
+                        if kind == "r0" and rng.random() < 0.3: yield "mpn_divexact_1_ok %s %x" % (vec(u), d)
                     if d & 1:
                         c = rng.choice([0, 0, 1, d - 1, rng.randrange(d), d, rng.getrandbits(64)])
                         yield "mpn_modexact_1c_odd %s %x %x" % (vec(u), d, c)
                         s = rng.choice([0, 1, 63, rng.randrange(64)])
                         cin = rng.choice([0, 0, 1, d - 1, rng.randrange(d)])
                         BR["hensel.qr_1_1" if n < T_HQR else "hensel.qr_1_2"] += 1
+                        m_hensel(u, d, s, cin, n >= T_HQR, BR)
                         yield "mpn_rsh_divrem_hensel_qr_1 %s %x %x %x" % (vec(u), d, s, cin)
                         if rng.random() < 0.3: yield "mpn_rsh_divrem_hensel_qr_1_1 %s %x %x %x" % (vec(u), d, s, cin)
                         if n >= 2 and rng.random() < 0.3: yield "mpn_rsh_divrem_hensel_qr_1_2 %s %x %x %x" % (vec(u), d, s, cin)
